@@ -4,7 +4,7 @@ CFG = {
     "extra_props_modules": ["RpmVerif.Props.C04Readside"],
     "cleanup_globs": ["work/c04-mut-*.bin"],
     "props_module": "RpmVerif.Props.C04",
-    "required_theorems": ["RpmVerif.C04.parsePackage_total", "RpmVerif.C04.parseMetadata_total", "RpmVerif.C04.decode_total",
+    "required_theorems": ["RpmVerif.C04.split_partition", "RpmVerif.C04.split_bounded", "RpmVerif.C04.split_witness", "RpmVerif.C04.parsePackage_total", "RpmVerif.C04.parseMetadata_total", "RpmVerif.C04.decode_total",
                           "RpmVerif.C04.accepted_count_bounded", "RpmVerif.C04.accepted_sizes_bounded", "RpmVerif.C04.getFileEntries_total",
                           "RpmVerif.C04.readside_total", "RpmVerif.C04.readerNew_total", "RpmVerif.C04.iterate_total", "RpmVerif.C04.keyIds_total"],
     "trivial_branches": [],
@@ -26,7 +26,7 @@ CFG = {
                   "explicit panic and proves it unreachable, incl. Lead::parse's unwrap), decoding never panics for any type/offset/count, every accepted entry's "
                   "count is bounded by the store length and index + store fit inside the input, and no accessor (incl. the unreachable!() arms of the list "
                   "accessors and get_file_entries) can panic. The tie and the parts outside the model (dependencies, allocator behaviour, cpio reader, signature "
-                  "code) are exercised by running the real read side on hostile inputs in a child process.",
+                  "code) are exercised by running the real read side on hostile inputs in a child process. Signature blobs: the OpenPGP packets handed to the pgp crate's parser are a partition of the blob, so no declared length exceeds it (split_partition, split_bounded, for every blob; the 104 MB witness of the old code is split_witness); model tied through the guarded hook pgp_split_packets. The correspondence also drains files() past errors (iterator must end) and limits every single allocation to 4 MiB + 16 * input length.",
     "level_note": "Trusted: Lean kernel; model fidelity as exercised (parse ok/err class compared on every case); verify_digests / verify_signature / cpio totality "
                   "are proved in C03 / C02 / C07's models; dependencies are exercised only.",
 }
